@@ -25,7 +25,7 @@ RULE = (
     "Hypothesis-generated programs: a task with a dependency DAG of 1-6 nodes (depth <= 3) mixing plain sync/async "
     "functions with the four teardown styles (generator, async generator, @contextmanager, @asynccontextmanager), each "
     "edge cached or use_cache=False, a node may fail before its yield (dependency-resolution failure), a yielding node "
-    "may swallow or re-raise an exception thrown into it; task outcome return / raise / BaseException / NoResultError (no result is stored, the exception still is the task's exception) / an exception whose own __str__ raises / timeout label "
+    "may swallow or re-raise an exception thrown into it; task outcome return / raise / BaseException / NoResultError (no result is stored, the exception still is the task's exception) / an exception whose own __str__ raises / an exception instance that is falsy (len() == 0) / timeout label "
     "exceeded, the task function optionally with an asynchronous clean-up in its `finally` (so that after a timeout cancellation it needs further loop iterations to finish); propagate_exceptions on/off; three acknowledge types; driven through the worker's Receiver or through the bundled InMemoryBroker (whose own propagate_exceptions / await_inplace arguments configure the receiver it embeds); 1-3 overlapping executions on the virtual-time "
     "loop. Oracle per execution over the log of open / saw / close / enter / exit / save / ack events: (a) every opened "
     "yielding node is closed exactly once; (b) closes are in reverse order of opens; (c) every close happens after the "
@@ -54,7 +54,7 @@ def cases() -> Any:
     return st.integers(1, 6).flatmap(lambda n: st.fixed_dictionaries({
         "nodes": st.tuples(*[node(i) for i in range(n)]).map(list),
         "task_deps": st.lists(st.tuples(st.integers(0, n - 1), st.sampled_from([True, True, False])).map(list), min_size=1, max_size=3, unique_by=lambda x: x[0]),
-        "outcome": st.sampled_from(["ret", "ret", "raise", "base", "timeout", "nores", "badstr"]),
+        "outcome": st.sampled_from(["ret", "ret", "raise", "base", "timeout", "nores", "badstr", "falsy"]),
         "propagate": st.booleans(),
         "ack_type": st.sampled_from(["when_received", "when_executed", "when_saved"]),
         "starts": st.lists(st.sampled_from([0, 0, 0.05, 0.1]), min_size=1, max_size=3),
@@ -106,7 +106,7 @@ def run_case(c: Dict[str, Any]) -> Outcome:
             if c.get("startup"):
                 await b.startup()       # what applications (and the docs' testing guide) do before sending
         b.result_backend = RB(tr)
-        kind = {"ret": "ret", "raise": "raise", "base": "base", "timeout": "ret", "nores": "nores", "badstr": "badstr"}[c["outcome"]]
+        kind = {"ret": "ret", "raise": "raise", "base": "base", "timeout": "ret", "nores": "nores", "badstr": "badstr", "falsy": "falsy"}[c["outcome"]]
         mod, task, src = dg.build(nodes, tdeps, {"kind": kind, "cleanup": c.get("cleanup", 0)}, LOG)
         b.register_task(task, task_name="t")
         r = Receiver(b, executor=wh.Inline(), max_async_tasks=10, run_startup=False, propagate_exceptions=c["propagate"],
@@ -195,7 +195,7 @@ def run_case(c: Dict[str, Any]) -> Outcome:
                 out.add("C12.c", f"execution {k}: a dependency was closed before the task function finished; log={_brief(log)}")
         entered = bool(pos.get("enter"))
         failed_dep = not entered
-        exc_expected = c["propagate"] and (failed_dep or c["outcome"] in ("raise", "base", "timeout", "nores", "badstr"))
+        exc_expected = c["propagate"] and (failed_dep or c["outcome"] in ("raise", "base", "timeout", "nores", "badstr", "falsy"))
         saw = [e for e in log if e[0] == "saw"]
         n_open = sum(1 for kk, i in seq if kk == "open")
         if exc_expected:
